@@ -8,7 +8,7 @@ use crate::{
 use bumpalo::Bump;
 use codespan_reporting::term::{self, Config};
 use laythe_core::{
-  hooks::GcHooks, module::{Import, ImportError, Module, ModuleInsertError, Package}, object::{Class, Fun, LyStr}, Allocator, ObjRef, Ref
+  constants::SELF, hooks::GcHooks, module::{Import, ImportError, Module, ModuleInsertError, Package}, object::{Class, Fun, LyStr}, Allocator, ObjRef, Ref
 };
 use std::path::PathBuf;
 
@@ -128,7 +128,14 @@ impl Vm {
       Some(existing_package) => match existing_package.import(import) {
         Ok(module) => ImportResult::Loaded(module),
         Err(err) => match err {
-          ImportError::ModuleDoesNotExist => self.load_missing_module(existing_package, import),
+          ImportError::ModuleDoesNotExist => {
+            // only the program's own package is backed by files
+            if &*import.package() == SELF {
+              self.load_missing_module(existing_package, import)
+            } else {
+              ImportResult::NotFound
+            }
+          },
           ImportError::PackageDoesNotMatch => panic!("Unexpected package mismatch"),
           _ => unreachable!(),
         },
